@@ -49,6 +49,10 @@ CHECKS = {
    text="Lean theorems over the write inventory of do_blank_lines() regenerated from the source on every run (T-blank: every statement that writes a newline count, its target, kind, options, enclosing conditions) and the guard list of too_big_for_nl_max() (T-nlmax): the inventory has the shape the model interprets and calls only accessors/predicates (C20_shape, C20_callees, C20_cap_cmp); with nl_max = N > 0 and the inventory's options <= N every newline chunk the pass visits or writes ends <= N, for every list of chunks, every initial count and every outcome of the unmodelled guards (C20_visit_bounded, C20_pass_bounded); all options of the inventory but one are covered by the configuration guard (C20_inventory_covered, C20_pass_bounded_guarded); the proviso is necessary (C20_cap_needed_witness); eat_blanks_* through a model of can_increase_nl() (C20_eat_blanks_after_open/_before_close), cleanup_dup keeps the bound, start/end of file (C20_sof_eof_exact), a NEWLINE chunk writes exactly nl_count terminators (C20_newline_chunk_breaks). Tie: hook H6 records every visited newline chunk and every SetNlCount() during do_blank_lines(); the Lean driver must explain each recorded write in order by an inventory entry and reproduce the final count; Render model reproduces the bytes of every run; eatEdge model vs real edge breaks. Monitor at P1: nl_count <= nl_max outside disabled regions and no adjacent newline chunks. Oracle: runs of line breaks in the real op trace, blank lines next to braces in the real bytes",
    note="trusted: Lean kernel; translators T-blank/T-nlmax; models Blank/EatSE/Render validated by the trace replay; the guards of do_blank_lines() and all other newline passes are an oracle - that no later pass exceeds the cap is monitored, not proved; two known findings (adjacent newline chunks around virtual braces) and one fixed defect in known_findings.json",
    technique="Lean 4 proof over a regenerated write inventory + hook-trace refinement check + P1 monitor + byte/op oracles"),
+ "C04": dict(level="proof", design="6/C04",
+   text="Lean theorems (Props/C04.lean). Bracket structure over a stack-machine model of token streams: inserting a bracket pair around a well-nested segment, deleting a matched pair, turning virtual braces into real ones and permuting whole well-nested lines keep the stream well nested and leave every other token in place (C04_insert_pair_nested, C04_remove_pair_nested, C04_vbrace_convert_nested, C04_lines_permute_nested, C04_edit_frame). Frame over tables regenerated from the source on every run (T-mods): every chunk add/delete/retext/move site of src/ lies in a function of the committed classification and no function gained sites (C04_sites_classified); functions classified mod are gated by mod_ options that are off by default (C04_mod_gates_default_off); the option tests around the modifying passes in uncrustify_file() are false at the defaults (C04_driver_gates_default_off). Tie: the Lean definition wellNested judges, through the driver, the real token streams of input and output and the chunk list incl. virtual braces at P1. Oracle: input and output re-lexed by the independent specification lexer; after deleting the token kinds the enabled options may add/remove the streams must be identical in order; additions only under add/force, removals only under remove; sorted/deduplicated include lines a permutation/subset; every mod_ option singly, families of interacting options, random combinations, defaults",
+   note="trusted: Lean kernel; T-mods and the hand-made classification (a claim per function, re-reviewed when a function gains mutation sites); the table of token kinds per option in props/c04.py; the decisions of braces.cpp/parens.cpp/sorting.cpp are an oracle - the hypotheses of the bracket theorems (segment well nested, pair matched) are evaluated on real streams, not proved; C family only",
+   technique="Lean 4 proof over a bracket-stream model + regenerated frame tables + token-stream oracle judged by the Lean definitions"),
 }
 EXTRA = {}
 for f in sorted(os.listdir(ROOT)):
